@@ -203,7 +203,7 @@ def genVisHostile (tier : String) (seed : Nat) (tagp : String) : Array Case := I
     let (t2, r2) := pickA hostileVisTexts r1
     let (t3, r3) := pickA hostileVisTexts r2
     let (an, r4) := pickA hostileVisAnn r3
-    let (shape, r5) := below 7 r4
+    let (shape, r5) := below 10 r4
     let (v, r6) := below 32 r5
     rng := r6
     let text :=
@@ -214,6 +214,11 @@ def genVisHostile (tier : String) (seed : Nat) (tagp : String) : Array Case := I
       | 3 => s!"A1({t1}) A1,p[{an}]({t2}) I({t3}) Bdir,p(p) Bdir(({t1} {t2} [OR] y) z)"
       | 5 => s!"A(actor) I(review) Bdir({t1} (plans [AND] programs) {t2}) Cex((a [OR] b) {t3} (c [XOR] d))"
       | 6 => s!"A(actor) D({t1}) I(act) Cac" ++ "{" ++ s!"A(other) D({t2}) I(acts)" ++ "}"
+      -- several private properties of one component, one of them a nested statement (flat
+      -- printing flattens the nested statement into the label of the value)
+      | 7 => s!"E(notification) F(states) P1(date) P1,p({t1}) P1,p" ++ "{" ++ s!"E(date) F(is {t2}) P({t3})" ++ "}"
+      | 8 => s!"A1(actor) A1,p({t1}) A1,p" ++ "{" ++ s!"A(who) I(holds) Bdir({t2})" ++ "}" ++ s!" A1,p" ++ "{" ++ s!"A({t3}) I(is)" ++ "}" ++ " I(acts)"
+      | 9 => s!"Bdir1(object) Bdir1,p" ++ "{" ++ s!"A({t1}) I({t2})" ++ "}" ++ s!" Bdir,p" ++ "{" ++ s!"A(x) I({t3})" ++ "}" ++ " A(a) I(i)"
       | _ => s!"A({t1}) A,p" ++ "{" ++ s!"A({t2}) I({t3})" ++ "}" ++ s!" I(acts) Bdir1,p({t2}) Bdir1(o1) Bdir(o2)"
     let o := visOptsOfNat v
     out := out.push { id := s!"{tagp}-h{i}", op := "vis", args := visArgs text o, exp := Json.null, tag := "hostile",
